@@ -100,7 +100,16 @@ impl<'a, C: Crypto> PaseResponder<'a, C> {
     }
 
     async fn handle_inner(&mut self, exchange: &mut Exchange<'_>) -> Result<bool, Error> {
-        let mut session = ReservedSession::reserve(exchange.matter(), &self.crypto).await?;
+        let mut session = match ReservedSession::reserve(exchange.matter(), &self.crypto).await {
+            Ok(session) => session,
+            Err(e) if matches!(e.code(), ErrorCode::NoSpaceSessions) => {
+                // The session table is full and nothing can be evicted: tell the initiator
+                // to come back later rather than leaving it to time out. Not a failed proof.
+                complete_with_status(exchange, SCStatusCodes::Busy, &500u16.to_le_bytes()).await?;
+                return Ok(true);
+            }
+            Err(e) => return Err(e),
+        };
 
         if !self.update_session_timeout(exchange, true).await? {
             return Ok(true);
